@@ -637,6 +637,395 @@ theorem C12_visit_sound (d : TD) (cur : Bool) (res : List Seen) (hr : d.visit cu
   have : p.2 = 0 + (d.fAtom + k) := by rw [← hget]
   omega
 
+/-! #### visiting is complete: everything stored and referenced from a visited item is visited -/
+
+def termKids (d : TD) (cur : Bool) (id : Nat) : List Nat :=
+  match d.getTerm id with
+  | some (.comp base args) => (args ++ (if base ≥ 0 then [base.toNat] else [])).filter (d.doTerm cur)
+  | _ => []
+
+/-- what an item refers to (restricted, in `current` mode, to what is new) -/
+def children (d : TD) (cur : Bool) : Seen → List Seen
+  | .term id => (termKids d cur id).map .term
+  | .elem id => match d.getElem id with
+    | some e => (e.terms.filter (d.doTerm cur)).map .term
+    | none => []
+  | .atom i => match d.atoms[i]? with
+    | some a => ([a.term].filter (d.doTerm cur)).map .term ++ (a.elems.filter (d.doElem cur)).map .elem ++
+        (match a.guard with | some (op, rhs) => ([op, rhs].filter (d.doTerm cur)).map .term | none => [])
+    | none => []
+  | .missing => []
+
+/-- `a'` extends `a`, and every item of `a'` that was not yet in `a` has all its children in `a'` -/
+def New (d : TD) (cur : Bool) (a a' : List Seen) : Prop := (∀ s ∈ a, s ∈ a') ∧ ∀ s ∈ a', s ∉ a → ∀ c ∈ children d cur s, c ∈ a'
+
+theorem New.refl (d : TD) (cur : Bool) (a : List Seen) : New d cur a a := ⟨fun _ h => h, fun s h hn => absurd h hn⟩
+
+theorem New.trans {d : TD} {cur : Bool} {a b c : List Seen} (h1 : New d cur a b) (h2 : New d cur b c) : New d cur a c := by
+  refine ⟨fun s hs => h2.1 s (h1.1 s hs), fun s hs hn k hk => ?_⟩
+  by_cases hb : s ∈ b
+  · exact h2.1 k (h1.2 s hb hn k hk)
+  · exact h2.2 s hs hb k hk
+
+theorem foldlM_new {α : Type} (d : TD) (cur : Bool) (f : List Seen → α → Option (List Seen)) : ∀ (l : List α) (init r : List Seen),
+    (∀ acc x acc', x ∈ l → f acc x = some acc' → New d cur acc acc') → l.foldlM f init = some r → New d cur init r := by
+  intro l
+  induction l with
+  | nil => intro init r _ hr; simp [List.foldlM] at hr; subst hr; exact New.refl d cur _
+  | cons x xs ih =>
+    intro init r hstep hr
+    simp only [List.foldlM, bind, Option.bind] at hr
+    cases hf : f init x with
+    | none => rw [hf] at hr; cases hr
+    | some b =>
+      rw [hf] at hr
+      exact (hstep init x b (by simp) hf).trans (ih b r (fun acc y acc' hy => hstep acc y acc' (List.mem_cons_of_mem _ hy)) hr)
+
+/-- what each step of a fold puts into the accumulator is still there at the end -/
+theorem foldlM_roots {α : Type} (f : List Seen → α → Option (List Seen)) (root : α → Seen) (g : α → Bool) : ∀ (l : List α) (init r : List Seen),
+    (∀ acc x acc', x ∈ l → f acc x = some acc' → (∀ s ∈ acc, s ∈ acc') ∧ (g x = true → root x ∈ acc')) → l.foldlM f init = some r →
+    (∀ s ∈ init, s ∈ r) ∧ ∀ x ∈ l, g x = true → root x ∈ r := by
+  intro l
+  induction l with
+  | nil => intro init r _ hr; simp [List.foldlM] at hr; subst hr; exact ⟨fun _ h => h, fun x hx => by simp at hx⟩
+  | cons x xs ih =>
+    intro init r hstep hr
+    simp only [List.foldlM, bind, Option.bind] at hr
+    cases hf : f init x with
+    | none => rw [hf] at hr; cases hr
+    | some b =>
+      rw [hf] at hr
+      obtain ⟨m1, r1⟩ := hstep init x b (by simp) hf
+      obtain ⟨m2, r2⟩ := ih b r (fun acc y acc' hy => hstep acc y acc' (List.mem_cons_of_mem _ hy)) hr
+      refine ⟨fun s hs => m2 s (m1 s hs), fun y hy hg => ?_⟩
+      simp only [List.mem_cons] at hy
+      rcases hy with rfl | hy
+      · exact m2 _ (r1 hg)
+      · exact r2 y hy hg
+
+theorem visitTerm_new (d : TD) (cur : Bool) : ∀ (fuel id : Nat) (acc res : List Seen), d.visitTerm cur fuel id acc = some res →
+    New d cur acc res ∧ Seen.term id ∈ res := by
+  intro fuel
+  induction fuel with
+  | zero => intro id acc res hr; simp [TD.visitTerm] at hr
+  | succ f ih =>
+    intro id acc res hr
+    simp only [TD.visitTerm] at hr
+    cases hg : d.getTerm id with
+    | none => simp [hg] at hr
+    | some t =>
+      simp only [hg] at hr
+      have leaf : termKids d cur id = [] → New d cur acc (acc ++ [Seen.term id]) ∧ Seen.term id ∈ acc ++ [Seen.term id] := by
+        intro hk
+        refine ⟨⟨fun s hs => List.mem_append_left _ hs, fun s hs hn k hkk => ?_⟩, by simp⟩
+        simp only [List.mem_append, List.mem_singleton] at hs
+        rcases hs with hs | rfl
+        · exact absurd hs hn
+        · simp [children, hk] at hkk
+      cases t with
+      | num n => simp only [Option.some.injEq] at hr; subst hr; exact leaf (by simp [termKids, hg])
+      | sym nm => simp only [Option.some.injEq] at hr; subst hr; exact leaf (by simp [termKids, hg])
+      | comp base args =>
+        simp only at hr
+        have hstep : ∀ (a : List Seen) (x : Nat) (a' : List Seen), (if d.doTerm cur x = true then d.visitTerm cur f x a else some a) = some a' →
+            New d cur a a' ∧ (d.doTerm cur x = true → Seen.term x ∈ a') := by
+          intro a x a' hx
+          by_cases hdo : d.doTerm cur x = true
+          · simp only [hdo, ↓reduceIte] at hx
+            exact ⟨(ih x a a' hx).1, fun _ => (ih x a a' hx).2⟩
+          · simp only [hdo, Bool.false_eq_true, ↓reduceIte, Option.some.injEq] at hx
+            subst hx; exact ⟨New.refl d cur _, fun h => absurd h hdo⟩
+        have hnew := foldlM_new d cur _ _ _ res (fun a x a' _ hx => (hstep a x a' hx).1) hr
+        have hroots := foldlM_roots _ Seen.term (d.doTerm cur) _ _ res (fun a x a' _ hx => ⟨(hstep a x a' hx).1.1, (hstep a x a' hx).2⟩) hr
+        refine ⟨⟨fun s hs => hnew.1 s (List.mem_append_left _ hs), fun s hs hn k hk => ?_⟩, hnew.1 _ (by simp)⟩
+        by_cases h1 : s ∈ acc ++ [Seen.term id]
+        · simp only [List.mem_append, List.mem_singleton] at h1
+          rcases h1 with h1 | rfl
+          · exact absurd h1 hn
+          · simp only [children, termKids, hg, List.mem_map, List.mem_filter] at hk
+            obtain ⟨x, ⟨hx, hdo⟩, rfl⟩ := hk
+            exact hroots.2 x hx hdo
+        · exact hnew.2 s hs h1 k hk
+
+theorem optTerm_new (d : TD) (cur : Bool) (fuel i : Nat) (acc res : List Seen) (hr : d.optTerm cur fuel acc i = some res) :
+    New d cur acc res ∧ (d.doTerm cur i = true → Seen.term i ∈ res) := by
+  unfold TD.optTerm at hr
+  by_cases hdo : d.doTerm cur i = true
+  · simp only [hdo, ↓reduceIte] at hr
+    exact ⟨(visitTerm_new d cur fuel i acc res hr).1, fun _ => (visitTerm_new d cur fuel i acc res hr).2⟩
+  · simp only [hdo, Bool.false_eq_true, ↓reduceIte, Option.some.injEq] at hr
+    subst hr; exact ⟨New.refl d cur _, fun h => absurd h hdo⟩
+
+theorem visitElem_new (d : TD) (cur : Bool) (fuel id : Nat) (acc res : List Seen) (hr : d.visitElem cur fuel id acc = some res) :
+    New d cur acc res ∧ Seen.elem id ∈ res := by
+  unfold TD.visitElem at hr
+  cases hg : d.getElem id with
+  | none => simp [hg] at hr
+  | some e =>
+    simp only [hg] at hr
+    have hnew := foldlM_new d cur _ _ _ res (fun a x a' _ hx => (optTerm_new d cur fuel x a a' hx).1) hr
+    have hroots := foldlM_roots _ Seen.term (d.doTerm cur) _ _ res (fun a x a' _ hx => ⟨(optTerm_new d cur fuel x a a' hx).1.1, (optTerm_new d cur fuel x a a' hx).2⟩) hr
+    refine ⟨⟨fun s hs => hnew.1 s (List.mem_append_left _ hs), fun s hs hn k hk => ?_⟩, hnew.1 _ (by simp)⟩
+    by_cases h1 : s ∈ acc ++ [Seen.elem id]
+    · simp only [List.mem_append, List.mem_singleton] at h1
+      rcases h1 with h1 | rfl
+      · exact absurd h1 hn
+      · simp only [children, hg, List.mem_map, List.mem_filter] at hk
+        obtain ⟨x, ⟨hx, hdo⟩, rfl⟩ := hk
+        exact hroots.2 x hx hdo
+    · exact hnew.2 s hs h1 k hk
+
+theorem optElem_new (d : TD) (cur : Bool) (fuel e : Nat) (acc res : List Seen) (hr : d.optElem cur fuel acc e = some res) :
+    New d cur acc res ∧ (d.doElem cur e = true → Seen.elem e ∈ res) := by
+  unfold TD.optElem at hr
+  by_cases hdo : d.doElem cur e = true
+  · simp only [hdo, ↓reduceIte] at hr
+    exact ⟨(visitElem_new d cur fuel e acc res hr).1, fun _ => (visitElem_new d cur fuel e acc res hr).2⟩
+  · simp only [hdo, Bool.false_eq_true, ↓reduceIte, Option.some.injEq] at hr
+    subst hr; exact ⟨New.refl d cur _, fun h => absurd h hdo⟩
+
+theorem visitAtom_new (d : TD) (cur : Bool) (fuel i : Nat) (a : Atom) (acc res : List Seen) (ha : d.atoms[i]? = some a)
+    (hr : d.visitAtom cur fuel i a acc = some res) : New d cur acc res ∧ Seen.atom i ∈ res := by
+  unfold TD.visitAtom at hr
+  cases h1 : d.optTerm cur fuel (acc ++ [Seen.atom i]) a.term with
+  | none => rw [h1] at hr; cases hr
+  | some r1 =>
+    rw [h1] at hr
+    simp only [Option.bind_some] at hr
+    obtain ⟨n1, t1⟩ := optTerm_new d cur fuel a.term _ r1 h1
+    cases h2 : a.elems.foldlM (d.optElem cur fuel) r1 with
+    | none => rw [h2] at hr; cases hr
+    | some r2 =>
+      rw [h2] at hr
+      simp only [Option.bind_some] at hr
+      have n2 := foldlM_new d cur _ _ _ r2 (fun b x b' _ hx => (optElem_new d cur fuel x b b' hx).1) h2
+      have e2 := foldlM_roots _ Seen.elem (d.doElem cur) _ _ r2 (fun b x b' _ hx => ⟨(optElem_new d cur fuel x b b' hx).1.1, (optElem_new d cur fuel x b b' hx).2⟩) h2
+      -- the guard
+      obtain ⟨n3, g3⟩ : New d cur r2 res ∧ ∀ c ∈ (match a.guard with | some (op, rhs) => ([op, rhs].filter (d.doTerm cur)).map Seen.term | none => []), c ∈ res := by
+        cases hgd : a.guard with
+        | none => rw [hgd] at hr; simp only [Option.some.injEq] at hr; subst hr; exact ⟨New.refl d cur _, by simp⟩
+        | some g =>
+          obtain ⟨op, rhs⟩ := g
+          rw [hgd] at hr
+          simp only at hr
+          cases h3 : d.optTerm cur fuel r2 op with
+          | none => rw [h3] at hr; cases hr
+          | some r3 =>
+            rw [h3] at hr
+            simp only [Option.bind_some] at hr
+            obtain ⟨n3, t3⟩ := optTerm_new d cur fuel op r2 r3 h3
+            obtain ⟨n4, t4⟩ := optTerm_new d cur fuel rhs r3 res hr
+            refine ⟨n3.trans n4, fun c hc => ?_⟩
+            simp only [List.mem_map, List.mem_filter, List.mem_cons, List.not_mem_nil, or_false] at hc
+            obtain ⟨x, ⟨hx, hdo⟩, rfl⟩ := hc
+            rcases hx with rfl | rfl
+            · exact n4.1 _ (t3 hdo)
+            · exact t4 hdo
+      have nall := (n1.trans n2).trans n3
+      refine ⟨⟨fun s hs => nall.1 s (List.mem_append_left _ hs), fun s hs hn k hk => ?_⟩, nall.1 _ (by simp)⟩
+      by_cases hin : s ∈ acc ++ [Seen.atom i]
+      · simp only [List.mem_append, List.mem_singleton] at hin
+        rcases hin with hin | rfl
+        · exact absurd hin hn
+        · simp only [children, ha, List.mem_append] at hk
+          rcases hk with (hk | hk) | hk
+          · simp only [List.mem_map, List.mem_filter, List.mem_singleton] at hk
+            obtain ⟨x, ⟨rfl, hdo⟩, rfl⟩ := hk
+            exact n3.1 _ (n2.1 _ (t1 hdo))
+          · simp only [List.mem_map, List.mem_filter] at hk
+            obtain ⟨x, ⟨hx, hdo⟩, rfl⟩ := hk
+            exact n3.1 _ (e2.2 x hx hdo)
+          · exact g3 k hk
+      · exact nall.2 s hs hin k hk
+
+/-- **visiting is complete**: a visit that ends normally has shown every atom of the range it starts from (all atoms, or those of
+    the current step), and with every item shown also everything that item refers to (in `current` mode: what of it is new). Together
+    with `C12_visit_sound` the items shown are exactly the stored items reachable from those atoms. -/
+theorem C12_visit_complete (d : TD) (cur : Bool) (res : List Seen) (hr : d.visit cur = some res) :
+    (∀ i, (if cur then d.fAtom else 0) ≤ i → i < d.atoms.length → Seen.atom i ∈ res) ∧ ∀ s ∈ res, ∀ c ∈ children d cur s, c ∈ res := by
+  unfold TD.visit at hr
+  have hget : ∀ p ∈ (d.atoms.zipIdx).drop (if cur then d.fAtom else 0), d.atoms[p.2]? = some p.1 := by
+    intro p hp
+    have := List.mem_zipIdx (List.mem_of_mem_drop hp)
+    obtain ⟨_, h2, h3⟩ := this
+    simp at h2 h3
+    rw [List.getElem?_eq_getElem (by omega)]
+    simp [h3]
+  have hnew := foldlM_new d cur _ _ _ res (fun acc p acc' hp hx => (visitAtom_new d cur _ p.2 p.1 acc acc' (hget p hp) hx).1) hr
+  have hroots := foldlM_roots _ (fun (p : Atom × Nat) => Seen.atom p.2) (fun _ => true) _ _ res
+    (fun acc p acc' hp hx => ⟨(visitAtom_new d cur _ p.2 p.1 acc acc' (hget p hp) hx).1.1, fun _ => (visitAtom_new d cur _ p.2 p.1 acc acc' (hget p hp) hx).2⟩) hr
+  refine ⟨fun i h1 h2 => ?_, fun s hs k hk => hnew.2 s hs (by simp) k hk⟩
+  have hm : (d.atoms[i], i) ∈ (d.atoms.zipIdx).drop (if cur then d.fAtom else 0) := by
+    rw [List.mem_iff_getElem]
+    refine ⟨i - (if cur then d.fAtom else 0), by simp; omega, ?_⟩
+    rw [List.getElem_drop, List.getElem_zipIdx]
+    have : (if cur then d.fAtom else 0) + (i - (if cur then d.fAtom else 0)) = i := by omega
+    simp [this]
+  exact hroots.2 _ hm rfl
+
+/-! #### … and nothing else: every term or element shown is referred to by an item shown -/
+
+/-- every item of `a'` was already in `a`, is an atom, or is a child of an item of `a'` -/
+def Par (d : TD) (cur : Bool) (a a' : List Seen) : Prop := ∀ s ∈ a', s ∈ a ∨ (∃ i, s = Seen.atom i) ∨ ∃ p ∈ a', s ∈ children d cur p
+
+theorem Par.refl (d : TD) (cur : Bool) (a : List Seen) : Par d cur a a := fun _ h => Or.inl h
+
+theorem Par.trans {d : TD} {cur : Bool} {a b c : List Seen} (h1 : Par d cur a b) (h2 : Par d cur b c) (hm : ∀ s ∈ b, s ∈ c) : Par d cur a c := by
+  intro s hs
+  rcases h2 s hs with h | h | h
+  · rcases h1 s h with h' | h' | ⟨p, hp, hc⟩
+    · exact Or.inl h'
+    · exact Or.inr (Or.inl h')
+    · exact Or.inr (Or.inr ⟨p, hm p hp, hc⟩)
+  · exact Or.inr (Or.inl h)
+  · exact Or.inr (Or.inr h)
+
+/-- a fold whose steps extend the accumulator and only add parented items -/
+theorem foldlM_par {α : Type} (d : TD) (cur : Bool) (f : List Seen → α → Option (List Seen)) (l : List α) (init r : List Seen)
+    (hstep : ∀ acc x acc', x ∈ l → (∀ s ∈ init, s ∈ acc) → f acc x = some acc' → (∀ s ∈ acc, s ∈ acc') ∧ Par d cur acc acc')
+    (hr : l.foldlM f init = some r) : (∀ s ∈ init, s ∈ r) ∧ Par d cur init r := by
+  refine foldlM_inv (fun a => (∀ s ∈ init, s ∈ a) ∧ Par d cur init a) f l init r ?_ ⟨fun _ h => h, Par.refl d cur init⟩ hr
+  intro acc x acc' hx ⟨hm, hp⟩ hf
+  obtain ⟨m1, p1⟩ := hstep acc x acc' hx hm hf
+  exact ⟨fun s hs => m1 s (hm s hs), hp.trans p1 m1⟩
+
+theorem visitTerm_par (d : TD) (cur : Bool) : ∀ (fuel id : Nat) (acc res : List Seen), d.visitTerm cur fuel id acc = some res →
+    (∃ p ∈ acc, Seen.term id ∈ children d cur p) → Par d cur acc res := by
+  intro fuel
+  induction fuel with
+  | zero => intro id acc res hr; simp [TD.visitTerm] at hr
+  | succ f ih =>
+    intro id acc res hr ⟨p0, hp0, hc0⟩
+    have hmono := (visitTerm_new d cur (f + 1) id acc res hr).1.1
+    simp only [TD.visitTerm] at hr
+    cases hg : d.getTerm id with
+    | none => simp [hg] at hr
+    | some t =>
+      simp only [hg] at hr
+      have base : Par d cur acc (acc ++ [Seen.term id]) := by
+        intro s hs
+        simp only [List.mem_append, List.mem_singleton] at hs
+        rcases hs with hs | rfl
+        · exact Or.inl hs
+        · exact Or.inr (Or.inr ⟨p0, List.mem_append_left _ hp0, hc0⟩)
+      cases t with
+      | num n => simp only [Option.some.injEq] at hr; subst hr; exact base
+      | sym nm => simp only [Option.some.injEq] at hr; subst hr; exact base
+      | comp bs args =>
+        simp only at hr
+        have hfold := foldlM_par d cur _ _ _ res (fun a x a' hx hm hxr => by
+          by_cases hdo : d.doTerm cur x = true
+          · simp only [hdo, ↓reduceIte] at hxr
+            refine ⟨(visitTerm_new d cur f x a a' hxr).1.1, ih x a a' hxr ⟨Seen.term id, hm _ (by simp), ?_⟩⟩
+            simp only [children, termKids, hg, List.mem_map, List.mem_filter]
+            exact ⟨x, ⟨hx, hdo⟩, rfl⟩
+          · simp only [hdo, Bool.false_eq_true, ↓reduceIte, Option.some.injEq] at hxr
+            subst hxr; exact ⟨fun _ h => h, Par.refl d cur _⟩) hr
+        exact base.trans hfold.2 hfold.1
+
+theorem optTerm_par (d : TD) (cur : Bool) (fuel i : Nat) (acc res : List Seen) (hr : d.optTerm cur fuel acc i = some res)
+    (hp : d.doTerm cur i = true → ∃ p ∈ acc, Seen.term i ∈ children d cur p) : (∀ s ∈ acc, s ∈ res) ∧ Par d cur acc res := by
+  have hm := (optTerm_new d cur fuel i acc res hr).1.1
+  unfold TD.optTerm at hr
+  by_cases hdo : d.doTerm cur i = true
+  · simp only [hdo, ↓reduceIte] at hr
+    exact ⟨hm, visitTerm_par d cur fuel i acc res hr (hp hdo)⟩
+  · simp only [hdo, Bool.false_eq_true, ↓reduceIte, Option.some.injEq] at hr
+    subst hr; exact ⟨hm, Par.refl d cur _⟩
+
+theorem visitElem_par (d : TD) (cur : Bool) (fuel id : Nat) (acc res : List Seen) (hr : d.visitElem cur fuel id acc = some res)
+    (hp : ∃ p ∈ acc, Seen.elem id ∈ children d cur p) : Par d cur acc res := by
+  obtain ⟨p0, hp0, hc0⟩ := hp
+  unfold TD.visitElem at hr
+  cases hg : d.getElem id with
+  | none => simp [hg] at hr
+  | some e =>
+    simp only [hg] at hr
+    have base : Par d cur acc (acc ++ [Seen.elem id]) := by
+      intro s hs
+      simp only [List.mem_append, List.mem_singleton] at hs
+      rcases hs with hs | rfl
+      · exact Or.inl hs
+      · exact Or.inr (Or.inr ⟨p0, List.mem_append_left _ hp0, hc0⟩)
+    have hfold := foldlM_par d cur _ _ _ res (fun a x a' hx hm hxr =>
+      optTerm_par d cur fuel x a a' hxr (fun hdo => ⟨Seen.elem id, hm _ (by simp), by
+        simp only [children, hg, List.mem_map, List.mem_filter]; exact ⟨x, ⟨hx, hdo⟩, rfl⟩⟩)) hr
+    exact base.trans hfold.2 hfold.1
+
+theorem optElem_par (d : TD) (cur : Bool) (fuel e : Nat) (acc res : List Seen) (hr : d.optElem cur fuel acc e = some res)
+    (hp : d.doElem cur e = true → ∃ p ∈ acc, Seen.elem e ∈ children d cur p) : (∀ s ∈ acc, s ∈ res) ∧ Par d cur acc res := by
+  have hm := (optElem_new d cur fuel e acc res hr).1.1
+  unfold TD.optElem at hr
+  by_cases hdo : d.doElem cur e = true
+  · simp only [hdo, ↓reduceIte] at hr
+    exact ⟨hm, visitElem_par d cur fuel e acc res hr (hp hdo)⟩
+  · simp only [hdo, Bool.false_eq_true, ↓reduceIte, Option.some.injEq] at hr
+    subst hr; exact ⟨hm, Par.refl d cur _⟩
+
+theorem visitAtom_par (d : TD) (cur : Bool) (fuel i : Nat) (a : Atom) (acc res : List Seen) (ha : d.atoms[i]? = some a)
+    (hr : d.visitAtom cur fuel i a acc = some res) : Par d cur acc res := by
+  unfold TD.visitAtom at hr
+  have base : Par d cur acc (acc ++ [Seen.atom i]) := by
+    intro s hs
+    simp only [List.mem_append, List.mem_singleton] at hs
+    rcases hs with hs | rfl
+    · exact Or.inl hs
+    · exact Or.inr (Or.inl ⟨i, rfl⟩)
+  cases h1 : d.optTerm cur fuel (acc ++ [Seen.atom i]) a.term with
+  | none => rw [h1] at hr; cases hr
+  | some r1 =>
+    rw [h1] at hr
+    simp only [Option.bind_some] at hr
+    obtain ⟨m1, p1⟩ := optTerm_par d cur fuel a.term _ r1 h1 (fun hdo => ⟨Seen.atom i, by simp, by simp [children, ha, hdo]⟩)
+    cases h2 : a.elems.foldlM (d.optElem cur fuel) r1 with
+    | none => rw [h2] at hr; cases hr
+    | some r2 =>
+      rw [h2] at hr
+      simp only [Option.bind_some] at hr
+      obtain ⟨m2, p2⟩ := foldlM_par d cur _ _ _ r2 (fun b x b' hx hm hxr =>
+        optElem_par d cur fuel x b b' hxr (fun hdo => ⟨Seen.atom i, hm _ (m1 _ (by simp)), by
+          simp only [children, ha, List.mem_append, List.mem_map, List.mem_filter]
+          exact Or.inl (Or.inr ⟨x, ⟨hx, hdo⟩, rfl⟩)⟩)) h2
+      have p12 := (base.trans p1 m1).trans p2 m2
+      cases hgd : a.guard with
+      | none => rw [hgd] at hr; simp only [Option.some.injEq] at hr; subst hr; exact p12
+      | some g =>
+        obtain ⟨op, rhs⟩ := g
+        rw [hgd] at hr
+        simp only at hr
+        cases h3 : d.optTerm cur fuel r2 op with
+        | none => rw [h3] at hr; cases hr
+        | some r3 =>
+          rw [h3] at hr
+          simp only [Option.bind_some] at hr
+          have hin : Seen.atom i ∈ r2 := m2 _ (m1 _ (by simp))
+          obtain ⟨m3, p3⟩ := optTerm_par d cur fuel op r2 r3 h3 (fun hdo => ⟨Seen.atom i, hin, by
+            simp only [children, ha, hgd, List.mem_append, List.mem_map, List.mem_filter, List.mem_cons, List.not_mem_nil, or_false]
+            exact Or.inr ⟨op, ⟨Or.inl rfl, hdo⟩, rfl⟩⟩)
+          obtain ⟨m4, p4⟩ := optTerm_par d cur fuel rhs r3 res hr (fun hdo => ⟨Seen.atom i, m3 _ hin, by
+            simp only [children, ha, hgd, List.mem_append, List.mem_map, List.mem_filter, List.mem_cons, List.not_mem_nil, or_false]
+            exact Or.inr ⟨rhs, ⟨Or.inr rfl, hdo⟩, rfl⟩⟩)
+          exact (p12.trans p3 m3).trans p4 m4
+
+/-- **… and nothing but**: every term or element shown to the visitor is referred to by an item that was shown -/
+theorem C12_visit_only_referenced (d : TD) (cur : Bool) (res : List Seen) (hr : d.visit cur = some res) :
+    ∀ s ∈ res, (∃ i, s = Seen.atom i) ∨ ∃ p ∈ res, s ∈ children d cur p := by
+  unfold TD.visit at hr
+  have hget : ∀ p ∈ (d.atoms.zipIdx).drop (if cur then d.fAtom else 0), d.atoms[p.2]? = some p.1 := by
+    intro p hp
+    have := List.mem_zipIdx (List.mem_of_mem_drop hp)
+    obtain ⟨_, h2, h3⟩ := this
+    simp at h2 h3
+    rw [List.getElem?_eq_getElem (by omega)]
+    simp [h3]
+  have := foldlM_par d cur _ _ _ res (fun acc p acc' hp _ hx =>
+    ⟨(visitAtom_new d cur _ p.2 p.1 acc acc' (hget p hp) hx).1.1, visitAtom_par d cur _ p.2 p.1 acc acc' (hget p hp) hx⟩) hr
+  intro s hs
+  rcases this.2 s hs with h | h | h
+  · simp at h
+  · exact Or.inl h
+  · exact Or.inr h
+
 /-! non-vacuity -/
 example : ((run {} [.addTerm 3 (.num 1), .addTerm 3 (.comp 0 []), .update, .addTerm 3 (.comp (-1) [1, 2]), .addTerm 0 (.sym [97])]).getTerm 3)
     = some (.comp (-1) [1, 2]) := by decide
